@@ -248,8 +248,11 @@ def expected(spec, with_links=True):
         for local, atom in enumerate(blk["atoms"]):
             fn = frag[atom["resid"] - 1] if from_itp else frag[0]
             ridx = len(model.residues) - len(frag) + (atom["resid"] - 1 if from_itp else 0)
-            resname = atom["resname"] if from_itp else fn["resname"]
-            attrs = {"atomname": atom["name"], "atype": atom["type"], "resname": resname,
+            # the written atom keeps the residue name of the block's own atoms line; what links select on is the
+            # residue name of the residue-graph node (for multi-residue blocks: of the block's atoms)
+            sel_resname = atom["resname"] if from_itp else fn["resname"]
+            resname = atom["resname"]
+            attrs = {"atomname": atom["name"], "atype": atom["type"], "resname": sel_resname,
                      "charge": atom["charge"], "mass": atom["mass"]}
             attrs.update(fn.get("attrs", {}))
             model.atoms.append({"name": atom["name"], "type": atom["type"], "resid": fn["resid"],
